@@ -68,3 +68,19 @@ pub fn guarded<T>(f: impl FnOnce() -> T + std::panic::UnwindSafe) -> Result<T, S
 pub fn silence_panics() {
     std::panic::set_hook(Box::new(|_| {}));
 }
+
+/// Replace every string that is a decimal number by its normalised spelling ("3.50" -> "3.5"),
+/// so that two JSON reports can be compared by value rather than by decimal scale.
+pub fn canon_numbers(v: &serde_json::Value) -> serde_json::Value {
+    use serde_json::Value;
+    use std::str::FromStr;
+    match v {
+        Value::String(s) => match rust_decimal::Decimal::from_str(s) {
+            Ok(d) if !s.is_empty() && s.chars().all(|c| c.is_ascii_digit() || c == '.' || c == '-') => Value::String(d.normalize().to_string()),
+            _ => v.clone(),
+        },
+        Value::Array(a) => Value::Array(a.iter().map(canon_numbers).collect()),
+        Value::Object(o) => Value::Object(o.iter().map(|(k, x)| (k.clone(), canon_numbers(x))).collect()),
+        _ => v.clone(),
+    }
+}
